@@ -26,7 +26,8 @@ def main():
             checks = sys.argv[i + 1].split(",")
         if a == "--tier":
             tier = sys.argv[i + 1]
-    src = f"/tmp/wt-{prop}/OUT/{k}"
+    src = os.environ.get("SEEDED_SRC", "/tmp/wt-{prop}").format(prop=prop) + f"/OUT/{k}"
+    keep_as = str(int(k) + int(os.environ.get("SEEDED_K_OFFSET", "0")))
     meta = json.load(open(f"{src}/meta.json"))
     patch = f"{src}/patch.diff"
     demos = [f for f in glob.glob(f"{src}/*") if re.search(r"_test\.go(\.txt)?$|\.go$", f)]
@@ -47,7 +48,7 @@ def main():
         # place the demo
         placement = meta.get("demo_placement", "")
         cands = [c for c in re.findall(r"([\w\-/\.]*_test\.go)", placement) if "OUT/" not in c]
-        cands = [re.sub(r"^/tmp/wt-C\d+/", "", c) for c in cands]
+        cands = [re.sub(r"^/tmp/w[t2]-C\d+/", "", c) for c in cands]
         withdir = [c for c in cands if "/" in c]
         target = withdir[0] if withdir else (cands[0] if cands else None)
         if target and "/" not in target and "root" not in placement:
@@ -74,7 +75,7 @@ def main():
             placed.append(t)
         res["demo_placed"] = placed
         cmd = meta.get("demo_cmd", "")
-        cmd = re.sub(r"/tmp/wt-C\d+", wt, cmd)
+        cmd = re.sub(r"/tmp/w[t2]-C\d+", wt, cmd)
         cmd = re.sub(r"^cd \S+ && ", "", cmd)
         if "go test" not in cmd and "go run" not in cmd:
             pkg = "./" + os.path.dirname(placed[0]) if os.path.dirname(placed[0]) else "."
@@ -117,7 +118,7 @@ def main():
         shutil.rmtree(erepo, ignore_errors=True)
     print(json.dumps({k2: v for k2, v in res.items() if k2 != "agent_meta"}, indent=1))
     ok = res.get("baseline_tests_pass_with_change") and res.get("demo_fails_with_change") and res.get("demo_passes_without_change")
-    dst = f"/verif/seeded/{prop}-{k}"
+    dst = f"/verif/seeded/{prop}-{keep_as}"
     if ok:
         os.makedirs(dst, exist_ok=True)
         shutil.copy(patch, dst + "/patch.diff")
